@@ -1,9 +1,136 @@
-/- driver handler of the `api` stream (line protocol, see Main.lean) -/
+/- driver handler of the `api` stream (line protocol, see Main.lean)
+
+  step   <cfg> <env> <state> <call>  →  ok <{"state":…, "resp":…, "published":…}>
+  engine <state> <arn> <record>      →  ok <state>
+
+  cfg   = {"region": str, "validateAsl": bool, "logging": bool}
+  env   = {"now": int, "fresh": str, "lintBad": bool}
+  state = {"machines": {arn: record}, "executions": {arn: record}}   (store order kept)
+  call  = {"action": str, "params": json} | {"action": str}          (no params: body not JSON)
+-/
 import AslModel.Drv.Util
+import AslModel.Api
 namespace Asl.Drv.Api
-open Asl
+open Asl Asl.Api
+
+def getStr (kvs : List (Str × Json)) (k : String) : Option Str :=
+  match objGet kvs k.toList with
+  | some (.str s) => some s
+  | _ => none
+
+def getInt (kvs : List (Str × Json)) (k : String) : Option Int :=
+  match objGet kvs k.toList with
+  | some (.num n) => some n
+  | _ => none
+
+def getBool (kvs : List (Str × Json)) (k : String) : Option Bool :=
+  match objGet kvs k.toList with
+  | some (.bool b) => some b
+  | _ => none
+
+def rdCfg : Json → Option Cfg
+  | .obj kvs => do
+    let r ← getStr kvs "region"
+    let v ← getBool kvs "validateAsl"
+    let l ← getBool kvs "logging"
+    pure ⟨r, v, l⟩
+  | _ => none
+
+def rdEnv : Json → Option Env
+  | .obj kvs => do
+    let n ← getInt kvs "now"
+    let f ← getStr kvs "fresh"
+    let l ← getBool kvs "lintBad"
+    pure ⟨n, f, l⟩
+  | _ => none
+
+def machineKeys : List String :=
+  ["creationDate", "definition", "loggingConfiguration", "name", "roleArn", "stateMachineArn",
+   "updateDate", "status", "type"]
+
+def rdMachine (arn : Str) : Json → Option Machine
+  | .obj kvs => do
+    let name ← getStr kvs "name"
+    let role ← getStr kvs "roleArn"
+    let d ← objGet kvs "definition".toList
+    let ty ← getStr kvs "type"
+    let c ← getInt kvs "creationDate"
+    let u ← getInt kvs "updateDate"
+    let a ← getStr kvs "stateMachineArn"
+    let st ← getStr kvs "status"
+    if a ≠ arn || st ≠ "ACTIVE".toList then none
+    else if kvs.any (fun kv => !(machineKeys.contains (String.ofList kv.1))) then none
+    else pure ⟨name, role, d, objGet kvs "loggingConfiguration".toList, ty, c, u⟩
+  | _ => none
+
+def execKeys : List String :=
+  ["executionArn", "input", "name", "output", "startDate", "stateMachineArn", "status", "stopDate"]
+
+def rdExec (arn : Str) : Json → Option Exec
+  | .obj kvs => do
+    let name ← getStr kvs "name"
+    let sm ← getStr kvs "stateMachineArn"
+    let st ← getStr kvs "status"
+    let i ← objGet kvs "input".toList
+    let o ← objGet kvs "output".toList
+    let sd ← getInt kvs "startDate"
+    let sp ← objGet kvs "stopDate".toList
+    let a ← getStr kvs "executionArn"
+    if a ≠ arn then none
+    else pure ⟨name, sm, st, i, o, sd, sp,
+               kvs.filter (fun kv => !(execKeys.contains (String.ofList kv.1)))⟩
+  | _ => none
+
+def rdMap {α : Type} (f : Str → Json → Option α) : List (Str × Json) → Option (List (Str × α))
+  | [] => some []
+  | (k, v) :: rest => do
+    let x ← f k v
+    let xs ← rdMap f rest
+    pure ((k, x) :: xs)
+
+def rdState : Json → Option State
+  | .obj kvs =>
+    match objGet kvs "machines".toList, objGet kvs "executions".toList with
+    | some (.obj ms), some (.obj es) => do
+      let m ← rdMap rdMachine ms
+      let e ← rdMap rdExec es
+      pure ⟨m, e⟩
+    | _, _ => none
+  | _ => none
+
+def rdCall : Json → Option Call
+  | .obj kvs => do
+    let a ← getStr kvs "action"
+    pure ⟨a, objGet kvs "params".toList⟩
+  | _ => none
+
+def showState (s : State) : Json :=
+  .obj [("machines".toList, .obj (s.machines.map (fun kv => (kv.1, Machine.toJson kv.1 kv.2)))),
+        ("executions".toList, .obj (s.executions.map (fun kv => (kv.1, Exec.toJson kv.1 kv.2))))]
+
+def showResp : Response → Json
+  | .ok b => .obj [("status".toList, .num 200), ("body".toList, b)]
+  | .okEmpty => .obj [("status".toList, .num 200), ("text".toList, .str [])]
+  | .error t => .obj [("status".toList, .num 400), ("type".toList, .str t)]
+  | .invalidAction => .obj [("status".toList, .num 400), ("text".toList, .str "InvalidAction".toList)]
+  | .internalError => .obj [("status".toList, .num 500), ("text".toList, .str "InternalError".toList)]
 
 def handle : List String → String
+  | ["step", cfg, env, state, call] =>
+    match (rd cfg).bind rdCfg, (rd env).bind rdEnv, (rd state).bind rdState, (rd call).bind rdCall with
+    | some cfg, some env, some s, some c =>
+      if otherActions.contains c.action then "unsupported" else
+      let (s', r) := step cfg env s c
+      "ok\t" ++ js (.obj [("state".toList, showState s'), ("resp".toList, showResp r),
+                          ("published".toList, (published env s c).getD .null)])
+    | _, _, _, _ => "unsupported"
+  | ["engine", state, arn, record] =>
+    match (rd state).bind rdState, rd arn, rd record with
+    | some s, some (.str a), some r =>
+      match rdExec a r with
+      | some e => "ok\t" ++ js (showState (engineWrite s a e))
+      | none => "unsupported"
+    | _, _, _ => "unsupported"
   | _ => "bad-op"
 
 end Asl.Drv.Api
